@@ -132,6 +132,9 @@ func (ic *ImageConfiguration) MergeInto(target *ImageConfiguration) error {
 	if target.WorkDir == "" {
 		target.WorkDir = ic.WorkDir
 	}
+	if target.VCSUrl == "" {
+		target.VCSUrl = ic.VCSUrl
+	}
 	if target.Layering == nil {
 		target.Layering = ic.Layering
 	}
